@@ -128,8 +128,8 @@ func (p *Prog) gates() []gateInfo {
 		ok := true
 		requiresIs := true
 		nNil := 0
-		for _, r := range returnsOf(fn) {
-			if k, isC := constInt(r.Results[0]); !isC || k != constOf(p.A.StatusFailed) {
+		for _, r := range expandedReturns(fn) {
+			if k, isC := constInt(stripConv(r.Results[0])); !isC || k != constOf(p.A.StatusFailed) {
 				ok = false
 				break
 			}
@@ -138,7 +138,7 @@ func (p *Prog) gates() []gateInfo {
 			case ev == ssa.Value(fn.Params[1]):
 			case isNilConst(ev):
 				nNil++
-				fs := factsAt(r.Instr.Block())
+				fs := r.Facts
 				if !p.verboseFact(fs, false) {
 					ok = false
 				}
@@ -327,6 +327,9 @@ func (p *Prog) ungated(fn *ssa.Function, ev ssa.Value, fs []Fact, isGate map[*ss
 		if sig != nil && p.pairKind(sig) != "" && idx == 1 {
 			return nil // the callee is itself subject to this rule (or is a gate)
 		}
+	}
+	if p.verboseFact(fs, true) {
+		return nil // returned where errors are known to be reported, wherever it was built
 	}
 	var out []string
 	for s := range e.classify(ev, fs, map[ssa.Value]bool{}) {
